@@ -22,35 +22,90 @@ import (
 )
 
 const replayPrelude = `
-import "fmt"
+import (
+	"fmt"
+	"runtime"
+)
 
 var vs_candidates = []string{""}
+
+// old() support at run time: phase 1 (before the call) records the value of every
+// vs_old(e) reached, keyed by call site and quantifier bindings; phase 2 (after the
+// call) returns the recorded values.
+var vs_phase int
+var vs_oldLog = map[string]any{}
+var vs_bind []any
 
 func vs_assume(b bool) { if !b { panic("vs_assume violated") } }
 func vs_assert(b bool) { if !b { panic("vs_assert violated") } }
 func vs_cover(b bool) {}
-func vs_old[T any](x T) T { return x }
+func vs_old[T any](x T) T {
+	pc, _, _, _ := runtime.Caller(1)
+	key := fmt.Sprintf("%d|%v", pc, vs_bind)
+	switch vs_phase {
+	case 1:
+		vs_oldLog[key] = x
+	case 2:
+		v, ok := vs_oldLog[key]
+		if !ok {
+			panic("vs_oracle: no recorded old value")
+		}
+		return v.(T)
+	}
+	return x
+}
+func vs_try(f func() bool) (r bool) {
+	if vs_phase != 1 {
+		return f()
+	}
+	defer func() { if recover() != nil { r = true } }()
+	return f()
+}
 func vs_all[T any](f func(T) bool) bool {
 	var z T
+	res := true
 	switch any(z).(type) {
 	case int:
-		for i := -2; i <= 66; i++ { if !any(f).(func(int) bool)(i) { return false } }
+		g := any(f).(func(int) bool)
+		for i := -2; i <= 66; i++ {
+			vs_bind = append(vs_bind, i)
+			ok := vs_try(func() bool { return g(i) })
+			vs_bind = vs_bind[:len(vs_bind)-1]
+			if !ok { res = false; if vs_phase != 1 { return false } }
+		}
 	case string:
-		for _, s := range vs_candidates { if !any(f).(func(string) bool)(s) { return false } }
-	default:
-		_ = fmt.Sprint
+		g := any(f).(func(string) bool)
+		for _, s := range vs_candidates {
+			vs_bind = append(vs_bind, s)
+			ok := vs_try(func() bool { return g(s) })
+			vs_bind = vs_bind[:len(vs_bind)-1]
+			if !ok { res = false; if vs_phase != 1 { return false } }
+		}
 	}
-	return true
+	return res
 }
 func vs_any[T any](f func(T) bool) bool {
 	var z T
+	res := false
 	switch any(z).(type) {
 	case int:
-		for i := -2; i <= 66; i++ { if any(f).(func(int) bool)(i) { return true } }
+		g := any(f).(func(int) bool)
+		for i := -2; i <= 66; i++ {
+			vs_bind = append(vs_bind, i)
+			ok := vs_try(func() bool { return g(i) })
+			vs_bind = vs_bind[:len(vs_bind)-1]
+			if ok { res = true; if vs_phase != 1 { return true } }
+		}
 	case string:
-		for _, s := range vs_candidates { if any(f).(func(string) bool)(s) { return true } }
+		g := any(f).(func(string) bool)
+		for _, s := range vs_candidates {
+			vs_bind = append(vs_bind, s)
+			ok := vs_try(func() bool { return g(s) })
+			vs_bind = vs_bind[:len(vs_bind)-1]
+			if ok { res = true; if vs_phase != 1 { return true } }
+		}
 	}
-	return false
+	return res
 }
 func vs_fresh(p any) bool { return true }
 func vs_modifies(p any) {}
@@ -540,8 +595,9 @@ func replayObligation(e *Engine, o *Obligation, outDir, work string) (string, bo
 	if x == nil || x.root == nil {
 		return finish("no execution context", false)
 	}
-	if o.Result.Status != "sat" {
-		return finish("the solvers produced no model (verdict "+o.Result.Status+"); the obligation was proved on the unchanged tree and is not provable now", false)
+	relaxed := o.Result.Status != "sat"
+	if relaxed {
+		b.WriteString("\nno model from the full query (verdict " + o.Result.Status + "); looking for a candidate model of the query without its quantified assumptions (a candidate only: the replay on the real code decides)\n")
 	}
 	fn := x.root.fn
 	tp := e.Targets[fn.Pkg.Pkg.Path()]
@@ -559,7 +615,7 @@ func replayObligation(e *Engine, o *Obligation, outDir, work string) (string, bo
 	default:
 		return finish("obligations of kind "+o.Kind+" have no run-time oracle", false)
 	}
-	script := o.vc.script(o.Upto, o.Path, o.Goal, true)
+	script := o.vc.scriptOpt(o.Upto, o.Path, o.Goal, true, relaxed)
 	// prefer small models: bound the length of every slice-sorted constant and of the inputs
 	var small strings.Builder
 	for _, d := range o.vc.decls {
@@ -651,28 +707,32 @@ func replayObligation(e *Engine, o *Obligation, outDir, work string) (string, bo
 	for i := 0; i < nres; i++ {
 		resNames = append(resNames, fmt.Sprintf("vs_r%d", i))
 	}
-	src.WriteString("\tdefer func() {\n\t\tif r := recover(); r != nil {\n")
-	switch {
-	case isLemma:
-		src.WriteString("\t\t\tif s, ok := r.(string); ok && s == \"vs_assume violated\" { t.Skip(\"model violates lemma hypothesis\") }\n")
-		src.WriteString("\t\t\tt.Fatalf(\"VERIF-REPRODUCED: %v\", r)\n")
-	case oracle == "":
-		src.WriteString("\t\t\tt.Fatalf(\"VERIF-REPRODUCED: panic: %v\", r)\n")
-	default:
-		src.WriteString("\t\t\tt.Fatalf(\"VERIF-REPRODUCED (panic instead of result): %v\", r)\n")
-	}
-	src.WriteString("\t\t}\n\t}()\n")
 	call := fmt.Sprintf("%s(%s)", callee, strings.Join(argList, ", "))
-	if nres > 0 {
-		fmt.Fprintf(&src, "\t%s := %s\n", strings.Join(resNames, ", "), call)
-		for _, r := range resNames {
-			fmt.Fprintf(&src, "\t_ = %s\n", r)
-		}
-	} else {
-		fmt.Fprintf(&src, "\t%s\n", call)
+	for i, r := range resNames {
+		fmt.Fprintf(&src, "\tvar %s %s\n\t_ = %s\n", r, vb.typeStr(fn.Signature.Results().At(i).Type()), r)
 	}
 	if oracle != "" {
-		fmt.Fprintf(&src, "\tif !%s(%s) { t.Fatalf(\"VERIF-REPRODUCED: postcondition false; results: %%+v\", []any{%s}) }\n", oracle, strings.Join(append(append([]string{}, names...), resNames...), ", "), strings.Join(resNames, ", "))
+		// phase 1: record old() values before the call
+		fmt.Fprintf(&src, "\tvs_phase = 1\n\tfunc() { defer func() { recover() }(); %s(%s) }()\n\tvs_phase = 0\n", oracle, strings.Join(append(append([]string{}, names...), resNames...), ", "))
+	}
+	src.WriteString("\tvar vs_panic any\n\tfunc() {\n\t\tdefer func() { vs_panic = recover() }()\n")
+	if nres > 0 {
+		fmt.Fprintf(&src, "\t\t%s = %s\n", strings.Join(resNames, ", "), call)
+	} else {
+		fmt.Fprintf(&src, "\t\t%s\n", call)
+	}
+	src.WriteString("\t}()\n")
+	switch {
+	case isLemma:
+		src.WriteString("\tif s, ok := vs_panic.(string); ok && s == \"vs_assume violated\" { t.Skip(\"model violates lemma hypothesis\") }\n")
+		src.WriteString("\tif vs_panic != nil { t.Fatalf(\"VERIF-REPRODUCED: %v\", vs_panic) }\n")
+	case oracle == "":
+		src.WriteString("\tif vs_panic != nil { t.Fatalf(\"VERIF-REPRODUCED: the real function panics: %v\", vs_panic) }\n")
+	default:
+		src.WriteString("\tif vs_panic != nil { t.Fatalf(\"VERIF-REPRODUCED: the real function panics instead of returning: %v\", vs_panic) }\n")
+		fmt.Fprintf(&src, "\tvs_phase = 2\n\tvar vs_ok bool\n\tvar vs_opanic any\n\tfunc() {\n\t\tdefer func() { vs_opanic = recover() }()\n\t\tvs_ok = %s(%s)\n\t}()\n", oracle, strings.Join(append(append([]string{}, names...), resNames...), ", "))
+		src.WriteString("\tif vs_opanic != nil { t.Skipf(\"oracle could not be evaluated: %v\", vs_opanic) }\n")
+		fmt.Fprintf(&src, "\tif !vs_ok { t.Fatalf(\"VERIF-REPRODUCED: postcondition false after the call; results: %%+v\", []any{%s}) }\n", strings.Join(resNames, ", "))
 	}
 	src.WriteString("}\n")
 	testFile := base + "_test.go"
